@@ -131,7 +131,7 @@ CHECKS["C01"] = dict(
     technique="Hypothesis rule-based state machine over request histories "
               "and cache settings; differential oracle against a fresh "
               "never-evicting instance per request with a measured "
-              "discretisation allowance (20*E_k) and higher-order replay "
+              "discretisation allowance (10*E_k) and higher-order replay "
               "adjudication; designed histories for every branch guard",
     text="Every value handed out during a generated history (any of 161 "
          "keys, helper calls, re-accesses; clean-up period 1..30, memory "
